@@ -125,20 +125,32 @@ def _fields_form(s):
     return None
 
 
-def _effect_delta(ef):
-    """canonical effect string -> (field, delta) or None"""
-    m = re.fullmatch(r'self\.(\w+) AddAssign 1', ef)
+def _effect_delta(ef, defs=None):
+    """canonical effect string -> (field, delta) or None.  The new value is read as a polynomial
+    with the path's kept lets substituted, so `self.k += 1`, `self.k = self.k + 1` and
+    `let i = self.k; self.k = i + 1` are the same update; `saturating_sub(1)` counts as -1."""
+    from algebra import parse_poly
+    defs = defs or {}
+    m = re.fullmatch(r'self\.(\w+) (AddAssign|SubAssign) (.+)', ef)
     if m:
-        return m.group(1), 1
-    m = re.fullmatch(r'self\.(\w+) SubAssign 1', ef)
+        try:
+            d = parse_poly(m.group(3), defs)
+        except Exception:
+            return None
+        if d.is_const():
+            v = d.const_value()
+            return (m.group(1), int(v) if m.group(2) == 'AddAssign' else -int(v)) if v == int(v) else None
+        return None
+    m = re.fullmatch(r'self\.(\w+) = (.+)', ef)
     if m:
-        return m.group(1), -1
-    m = re.fullmatch(r'self\.(\w+) = self\.(\w+)\.saturating_sub\(1\)', ef)
-    if m and m.group(1) == m.group(2):
-        return m.group(1), -1
-    m = re.fullmatch(r'self\.(\w+) = \(self\.(\w+) - 1\)', ef)
-    if m and m.group(1) == m.group(2):
-        return m.group(1), -1
+        rhs = re.sub(r"([\w.']+)\.saturating_sub\(1\)", r'(\1 - 1)', m.group(2))
+        try:
+            d = parse_poly(rhs, defs) - parse_poly('self.%s' % m.group(1), {})
+        except Exception:
+            return None
+        if d.is_const():
+            v = d.const_value()
+            return (m.group(1), int(v)) if v == int(v) else None
     return None
 
 
@@ -199,8 +211,12 @@ def check_structs(run, F):
             for cs, leaf, effs in paths:
                 dk = 0
                 bad_eff = []
+                from algebra import defs_of
+                defs_ = defs_of([dtree.unprime(x) for x in effs])
                 for ef in effs:
-                    d = _effect_delta(ef)
+                    if re.match(r"v\d+'* := ", ef):
+                        continue
+                    d = _effect_delta(dtree.unprime(ef), defs_)
                     if d is None:
                         if ef.startswith('self.'):
                             bad_eff.append(ef)
